@@ -581,7 +581,9 @@ def rule_sast_only_source(ctx, rep):
         a = ctx.resolver(run).expand(a) if a is not None else None
         attrs = {n.attr for n in ast.walk(a) if isinstance(n, ast.Attribute)} if a is not None else set()
         names = {n.id for n in ast.walk(a) if isinstance(n, ast.Name)} if a is not None else set()
-        ok = a is not None and attrs == {"sonar_issues_json", "sarif"} and names <= {"argv", "bool"}
+        from ..sites import cli_namespace_names
+
+        ok = a is not None and attrs == {"sonar_issues_json", "sarif"} and names <= (cli_namespace_names(ctx, run) | {"bool"})
         rep.check("R-SAST-ONLY-SOURCE", run.qname, run.loc(c), ok, "sast_only-arg",
                   f"sast_only is computed from `{unparse(a) if a is not None else 'nothing'}` rather than from argv.sonar_issues_json / argv.sarif: "
                   "hotspot-only or DefectDojo-only inputs (or an unrecognised SARIF) flip the eligible set")
